@@ -273,3 +273,39 @@ func orderedParallel(n int, work func(i int) func()) {
 		}
 	}
 }
+
+// guardedParallel is orderedParallel for calls into code that may not terminate on a broken
+// tree (the real solver): jobs that have not returned when the budget is over are handed to
+// onHang (in index order, together with the reports of the finished ones) and abandoned; the
+// process exits normally afterwards.
+func guardedParallel(n int, budget time.Duration, onHang func(i int), work func(i int) func()) {
+	outs := make([]func(), n)
+	done := make(chan int, n)
+	sem := make(chan struct{}, runtime.NumCPU())
+	for i := 0; i < n; i++ {
+		go func(i int) {
+			sem <- struct{}{}
+			outs[i] = work(i)
+			<-sem
+			done <- i
+		}(i)
+	}
+	finished := make([]bool, n)
+	deadline := time.After(budget)
+	for got := 0; got < n; {
+		select {
+		case i := <-done:
+			finished[i] = true
+			got++
+		case <-deadline:
+			got = n
+		}
+	}
+	for i := 0; i < n; i++ {
+		if !finished[i] {
+			onHang(i)
+		} else if outs[i] != nil {
+			outs[i]()
+		}
+	}
+}
